@@ -85,8 +85,10 @@ def build_loaded(history, criteria):
         if os.path.exists(db + ext):
             os.remove(db + ext)
     store = SqliteDataStore(problem, database_name=db)
-    for vec, costs, tag, front in history:
-        ind = Individual(list(vec))
+    from .c20 import make_as, CLASSES
+    for j, (vec, costs, tag, front) in enumerate(history):
+        # the recorded individuals are of the framework's different classes (an NSGA-II run followed by a sweep, ...)
+        ind = make_as(CLASSES[(j + len(history)) % 4], list(vec))
         ind.costs = list(costs)
         ind.population_id = tag
         ind.features['front_number'] = front
@@ -152,6 +154,13 @@ def check_values(history, criteria):
         out.append((key, msg + "; " + desc))
 
     rows_exp = Counter(tuple(i.vector) + tuple(i.costs) for i in inds)
+    if MODE["loaded"]:
+        want = Counter(tuple(float(x) for x in h[0]) + tuple(float(x) for x in h[1]) + (h[2],) for h in history)
+        have = Counter(tuple(float(x) for x in i.vector) + tuple(float(x) for x in i.costs) + (i.population_id,) for i in inds)
+        if want != have:
+            bad("C17:loaded:recorded-individuals-lost-or-changed", "%d individuals were recorded and stored, the loaded problem holds %d (%d of the recorded ones are missing)" % (
+                len(history), len(inds), sum((want - have).values())))
+            return out
     try:
         rows = res.table(transpose=False)
         if Counter(tuple(r) for r in rows) != rows_exp:
@@ -383,6 +392,22 @@ def _shard(shard, col: Collector):
         finally:
             MODE["loaded"] = False
         col.sample({"kind": "queries on a problem loaded back from a store", "criteria": criteria, "names": ["width", "height", "loss", "area"]}, 1)
+    elif kind == "bigind":
+        # fronts with hundreds of points (sizes around the powers of two and round numbers), with an outlier placed first,
+        # last and in the middle, so that an average taken block by block is visible
+        for n in (shard[1],):
+            front = [(i / float(n), 1.0 - i / float(n)) for i in range(n)]
+            for nc in sorted(set([n, max(2, n // 2 + 1), min(n, 257)])):
+                for where in ("first", "last", "none"):
+                    comp = [(x + 0.001 * ((7 * i) % 3), y + 0.002) for i, (x, y) in enumerate(front[:nc])]
+                    if where != "none":
+                        comp[{"first": 0, "last": -1, "middle": len(comp) // 2}[where]] = (3.0, 3.0)
+                    col.case()
+                    col.nontrivial(("bigind", n, nc, where))
+                    for key, msg in check_indicators(front, comp):
+                        col.violation(key + ":large-front", "bigind", "reference front of %d points, %d computed points, outlier %s: %s" % (n, nc, where, msg[:160]),
+                                      {"n": n, "nc": nc, "where": where})
+        col.sample({"kind": "indicators on large fronts", "sizes": [33, 257, 513, 1025]}, 1)
     elif kind == "near":
         import math
         vals = (0.5, 0.5 + 1e-8, 0.5 + 4e-8, math.nextafter(0.5, 1.0), 0.5 - 3e-8)
@@ -425,6 +450,13 @@ def _shard(shard, col: Collector):
 
 
 def replay(sub, case):
+    if sub == "bigind":
+        n, nc, where = case["n"], case["nc"], case["where"]
+        front = [(i / float(n), 1.0 - i / float(n)) for i in range(n)]
+        comp = [(x + 0.001 * ((7 * i) % 3), y + 0.002) for i, (x, y) in enumerate(front[:nc])]
+        if where != "none":
+            comp[{"first": 0, "last": -1, "middle": len(comp) // 2}[where]] = (3.0, 3.0)
+        return check_indicators(front, comp)
     if case.get("loaded") and not MODE["loaded"]:
         MODE["loaded"] = True
         try:
@@ -458,7 +490,7 @@ def run(tier, seed):
         for first in alpha:
             shards.append(("values", 3, cn, first, criteria))
     shards += [("ind", "2d"), ("ind", "3d"), ("ind", "decimal"), ("ind", "large"), ("near",)]
-    shards += [("loaded", criteria) for criteria in CRITERIA]
+    shards += [("loaded", criteria) for criteria in CRITERIA] + [("bigind", n) for n in (32, 33, 64, 65, 100, 256, 257, 300, 512, 513) + ((1000, 1025) if tier == "thorough" else ())]
     shards.sort(key=lambda s: 0 if s[0] == "ind" or (s[0] == "values" and s[1] == 3) else 1)
     col = run_shards(_shard, shards)
     return col, {"exhaustive": True}
